@@ -232,6 +232,8 @@ class ModelPool:
     def map(self, func, tasks, callback=None):
         import dill
 
+        if self.closed:
+            raise ValueError("Pool not running")  # what multiprocess.pool.Pool.map does after close()
         tasks = list(tasks)
         n = len(tasks)
         if n == 0:
